@@ -560,7 +560,9 @@ func checkEqualHelpers(p *Prog, r *Report) {
 	// the ID read from the first resource equals the ID read from the second; a
 	// further conjunct (non-empty, same length, ...) makes some pair of
 	// different IDs pass.
-	idOf := func(v ssa.Value) int {
+	var idOfIn func(fn *ssa.Function, v ssa.Value, depth int) int
+	idOf := func(v ssa.Value) int { return idOfIn(eqs, v, 0) }
+	idOfIn = func(fn *ssa.Function, v ssa.Value, depth int) int {
 		for {
 			switch x := v.(type) {
 			case *ssa.TypeAssert:
@@ -583,6 +585,36 @@ func checkEqualHelpers(p *Prog, r *Report) {
 		}
 		cc := c.Common()
 		if !cc.IsInvoke() {
+			// a package helper every return of which is the ID of one of its
+			// parameters (func resourceID(r Resource) string { return r.Get("id").(string) })
+			sc := cc.StaticCallee()
+			if sc == nil || depth > 2 || sc.Pkg != eqs.Pkg || len(sc.Blocks) == 0 {
+				return -1
+			}
+			which := -2
+			eachInstr(sc, func(i2 ssa.Instruction) {
+				ret, ok := i2.(*ssa.Return)
+				if !ok {
+					return
+				}
+				j := -1
+				if len(ret.Results) == 1 {
+					j = idOfIn(sc, ret.Results[0], depth+1)
+				}
+				if which == -2 {
+					which = j
+				} else if which != j {
+					which = -1
+				}
+			})
+			if which < 0 || which >= len(cc.Args) {
+				return -1
+			}
+			for i, prm := range fn.Params {
+				if cc.Args[which] == ssa.Value(prm) {
+					return i
+				}
+			}
 			return -1
 		}
 		switch cc.Method.Name() {
@@ -594,7 +626,7 @@ func checkEqualHelpers(p *Prog, r *Report) {
 		default:
 			return -1
 		}
-		for i, prm := range eqs.Params {
+		for i, prm := range fn.Params {
 			if cc.Value == ssa.Value(prm) {
 				return i
 			}
